@@ -953,3 +953,62 @@ FAMILIES = {
                palof=_palof(CL_POSITIONS, CL_PALETTE, CL_HOSTS, "w"), below={"w": ["w.foo"]},
                make=_cl_make, driver="cl", pass_groups=("DefaultPassGroup", "Mamba2020")),
 }
+
+
+# --------------------------------------------------------------------------------------
+# parameters set with set_param and replace_component (scenario phase of props/c15.py)
+# --------------------------------------------------------------------------------------
+
+class ParLeaf(Component):
+    def construct(s, k=1):
+        s.in_ = InPort(Bits8)
+        s.out = OutPort(Bits8)
+        K = k
+
+        @update
+        def up():
+            s.out @= s.in_ + K
+
+
+class ParLeafX(Component):
+    def construct(s, k=1):
+        s.in_ = InPort(Bits8)
+        s.out = OutPort(Bits8)
+        K = k
+
+        @update
+        def up():
+            s.out @= s.in_ ^ K
+
+
+class ParMid(Component):
+    def construct(s):
+        s.in_ = InPort(Bits8)
+        s.out = [OutPort(Bits8) for _ in range(2)]
+        s.ys = [ParLeaf() for _ in range(2)]
+        for i in range(2):
+            s.ys[i].in_ //= s.in_
+            s.out[i] //= s.ys[i].out
+
+
+class ParTop(Component):
+    """children addressed by set_param: a plain attribute, list elements (by index and by a regular
+    expression), and list elements one level down"""
+    def construct(s, cls_of=None):
+        cls_of = cls_of or {}
+        s.in_ = InPort(Bits8)
+        s.out = [OutPort(Bits8) for _ in range(5)]
+        s.p = cls_of.get("p", ParLeaf)()
+        s.xs = [cls_of.get("xs[%d]" % i, ParLeaf)() for i in range(2)]
+        s.mid = ParMid()
+        s.p.in_ //= s.in_
+        s.out[0] //= s.p.out
+        for i in range(2):
+            s.xs[i].in_ //= s.in_
+            s.out[1 + i] //= s.xs[i].out
+        s.mid.in_ //= s.in_
+        s.out[3] //= s.mid.out[0]
+        s.out[4] //= s.mid.out[1]
+
+
+PAR_SETS = [("top.p.construct", 3), ("top.xs[1].construct", 5), ("top.xs*.construct", 7), ("top.mid.ys[0].construct", 9)]
